@@ -222,6 +222,29 @@ def absorb_independent(doc):
             return f'absorb(source, {kw}) shares nested port dictionaries with the source: later additions {sorted(after - before)} show through'
         if 'a' in dst and dst['a'].ports is src['a'].ports:
             return f'absorb(source, {kw}): exposed namespace `a` shares its port dictionary with the source'
+    # deep independence: no port object at any depth is shared, and overriding an attribute of a port on either side afterwards
+    # does not show on the other side
+    for kw in ({}, {'exclude': ['c']}, {'include': ['a']}, {'exclude': ['zzz']}, {'include': ['a', 'c']}):
+        tree = {'a': {'b': {'c': None, 'd': None}, 'x': None}, 'c': None}
+        src = _build_ns(tree)
+        dst = PortNamespace('dst')
+        dst.absorb(src, **kw)
+
+        def walk(ns, prefix=''):
+            for name, port in ns.items():
+                yield prefix + name, port
+                if isinstance(port, PortNamespace):
+                    yield from walk(port, prefix + name + '.')
+        src_objs = {id(p): path for path, p in walk(src)}
+        for path, port in walk(dst):
+            if id(port) in src_objs:
+                return f'absorb(source, {kw}): the exposed port {path} IS the source object {src_objs[id(port)]} (not a copy)'
+        for path, port in walk(src):
+            if not isinstance(port, PortNamespace):
+                port.help = 'changed in the source afterwards'
+        for path, port in walk(dst):
+            if not isinstance(port, PortNamespace) and port.help == 'changed in the source afterwards':
+                return f'absorb(source, {kw}): a later change of the source port {path} shows in the exposed copy'
     return None
 
 
@@ -359,10 +382,15 @@ def persister_history(doc):
                 history = [('save', pids[0], None), ('save', pids[1], 'a'), ('save', pids[2], 'b'), ('save', pids[0], 'a'),
                            ('save', pids[1], None), ('delete', pids[0], 'zz'), ('delete', pids[0], 'a'), ('delete', pids[0], 'a'),
                            ('save', pids[-1], 'a'), ('delete_process', pids[0], None), ('delete_process', pids[0], None),
-                           ('save', pids[0], 't'), ('delete_process', pids[-1], None)]
+                           ('save', pids[0], 't'), ('delete_process', pids[-1], None),
+                           ('save', pids[1], ''), ('save', pids[1], None), ('delete', pids[1], ''), ('save', pids[1], ''),
+                           ('advance', pids[1], None), ('save', pids[1], ''), ('delete', pids[1], None)]
                 for op, pid, tag in history:
+                    if op == 'advance':
+                        procs[pid].set_status('advanced %d' % len(model))   # the live process moves on: a later save must record this
+                        continue
                     if op == 'save':
-                        model[(pid, tag)] = True
+                        model[(pid, tag)] = procs[pid].status
                     elif op == 'delete':
                         model.pop((pid, tag), None)
                     else:
@@ -390,6 +418,11 @@ def persister_history(doc):
                                 ok = (q, t) not in model
                             if not ok:
                                 return f'{name} persister after {op}({pid!r}, {tag!r}): load({q!r}, {t!r}) disagrees with the stored keys'
+                        for (q, t), want_status in model.items():
+                            got_status = p.load_checkpoint(q, t).get('_status')
+                            if got_status != want_status:
+                                return (f'{name} persister after {op}({pid!r}, {tag!r}): load({q!r}, {t!r}) returns the snapshot with status '
+                                        f'{got_status!r}; the most recent save of that key recorded {want_status!r}')
             return None
         finally:
             shutil.rmtree(tmp, ignore_errors=True)
@@ -1002,6 +1035,36 @@ def savable_members(doc):
         bad.append('a saved state missing a declared member produced an object')
     except KeyError:
         pass
+    # ---- recreate_from with NO loader in the context: the loader class recorded in the saved state decides (also for nested members)
+    Loader.used.clear()
+    try:
+        again = Outer.recreate_from(saved)
+        if type(again.nested) is not Inner or not any('Inner' in u for u in Loader.used):
+            bad.append(f'Outer.recreate_from(saved_state): the loader recorded in the saved state was not used for the nested member (loader saw {Loader.used})')
+    except Exception as e:  # noqa
+        bad.append(f'Outer.recreate_from(saved_state) with the recorded loader raised {type(e).__name__}: {e}')
+    # ---- members declared lazily in the persist() hook: also when an instance of the PARENT class was saved before
+    class LazyBase(persistence.Savable):
+        @classmethod
+        def persist(cls):
+            cls.auto_persist('a')
+
+        def __init__(self):
+            self.a, self.b = 1, 2
+
+    class LazyChild(LazyBase):
+        @classmethod
+        def persist(cls):
+            super().persist()
+            cls.auto_persist('b')
+    for k in (LazyBase, LazyChild):
+        k.__qualname__ = k.__name__
+        k.__module__ = __name__
+        globals()[k.__name__] = k
+    LazyBase().save()
+    child_state = LazyChild().save()
+    if child_state.get('a') != 1 or child_state.get('b') != 2:
+        bad.append(f"a subclass declaring members in persist() after a parent instance was saved: saved state {dict((k, v) for k, v in child_state.items() if k != '!!meta')}, expected a=1, b=2")
     # ---- methods of other objects are refused
     other = Outer(inner)
     outer.meth = other.hello
@@ -1488,6 +1551,41 @@ async def other_modes(base, n, via_return, mode, keys, order, failing):
     return None
 
 
+def process_resume_values(doc):
+    """Wait(f) then Process.resume(v): f(v) for every v including None; resume(): f()"""
+    import plumpy
+    SENT = object()
+
+    class W(plumpy.Process):
+        got = None
+
+        def run(self):
+            return plumpy.Wait(self.after)
+
+        def after(self, *args):
+            W.got = args
+            return 1
+
+    async def main():
+        for value in (SENT, None, 0, 42, 'v', ()):
+            W.got = 'not called'
+            proc = W()
+            await proc.step()
+            await proc.step()
+            if value is SENT:
+                proc.resume()
+            else:
+                proc.resume(value)
+            await asyncio.wait_for(proc.step_until_terminated(), 10)
+            want = () if value is SENT else (value,)
+            if W.got != want or proc.state.name != 'FINISHED':
+                return (f'Wait(f) then resume({"" if value is SENT else repr(value)}): the continuation received {W.got!r} (state {proc.state.name}); '
+                        f'expected f{want!r}')
+        return None
+
+    return _run(main())
+
+
 def wakeup_lost_to_pause(doc):
     """the last awaited future completes, then pause() arrives in the same loop iteration (before the completion callback ran);
     after play() the workchain must continue"""
@@ -1662,6 +1760,32 @@ def remote_equals_direct(doc):
                 bad.append(f'pause during a 6.5 s step: remote reply {got!r} / process {snapshot(a)}; direct {want!r} / {snapshot(b)}')
             ta.cancel()
             tb.cancel()
+        # a control message that arrives on ANOTHER THREAD while the process's loop is idle must wake the loop
+        import concurrent.futures
+        comm = Comm()
+        a = Three(communicator=comm)
+        await a.step()
+        await a.step()                  # WAITING; nothing scheduled on the loop
+        ta = asyncio.ensure_future(a.step_until_terminated())
+        await _settle(5)
+
+        def from_thread():
+            import time
+            time.sleep(0.3)             # let the loop run out of work and block in its selector
+            try:
+                f1 = comm.rpc_send(str(a.pid), builder.pause('from a thread'))
+                r1 = f1.result(timeout=2)
+                r1 = r1.result(timeout=2) if isinstance(r1, kiwipy.Future) else r1
+                return ('reply', r1)
+            except concurrent.futures.TimeoutError:
+                return ('timeout',)
+            except Exception as e:  # noqa
+                return ('raised', type(e).__name__)
+        got = await asyncio.get_event_loop().run_in_executor(None, from_thread)
+        await _settle(10)
+        if got != ('reply', True) or not a.paused:
+            bad.append(f'pause sent from another thread while the loop is idle: {got}, paused={a.paused} (a direct pause() returns True and pauses)')
+        ta.cancel()
         # unknown intent is an error and does nothing
         comm = Comm()
         a = Three(communicator=comm)
@@ -1760,7 +1884,9 @@ def output_emission(doc):
     emissions = [('x', 3, True), ('x', -1, False), ('x', 'three', False), ('opt', 'a', True), ('opt', 5, False),
                  ('ns.inner', 4, True), ('ns.inner', 'four', False), ('dyn.a', 1, True), ('dyn.a', 'one', False),
                  ('dyn.sub.b', 2, True), ('dyn.sub.b', 'two', False), ('undeclared', 1, False), ('ns.other', 1, False),
-                 ('opt_ns.must', 'bad', False), ('opt_ns.deeper.leaf', 'bad', False), ('crashy', 5, 'KeyError')]
+                 ('opt_ns.must', 'bad', False), ('opt_ns.deeper.leaf', 'bad', False), ('crashy', 5, 'KeyError'),
+                 ('dyn.a', None, False), ('dyn.a', '', False), ('dyn.a', 0.0, False), ('dyn.sub.b', None, False), ('dyn.a', 0, True),
+                 ('x', 0, False), ('opt', '', True), ('ns.inner', 0, True)]
 
     async def main():
         bad = []
@@ -1790,6 +1916,34 @@ def output_emission(doc):
                     bad.append(f'{where}: the process future reports {proc.future().result()} instead of the outputs')
             if len(bad) > 3:
                 break
+        # a process restored from a checkpoint that already holds outputs keeps emitting
+        import rprocs
+
+        class R(plumpy.Process):
+            @classmethod
+            def define(cls, spec):
+                super().define(spec)
+                spec.outputs.dynamic = True
+
+            def run(self):
+                self.out('first', 1)
+                return plumpy.Wait(self.after)
+
+            def after(self, value=None):
+                self.out('second', 2)
+                return 'r'
+        R.__qualname__ = R.__name__ = 'EmitR'
+        R.__module__ = 'rprocs'
+        setattr(rprocs, 'EmitR', R)
+        proc = R()
+        await proc.step()
+        await proc.step()
+        loaded = plumpy.Bundle(proc).unbundle()
+        loaded.resume()
+        await asyncio.wait_for(loaded.step_until_terminated(), 10)
+        if loaded.state.name != 'FINISHED' or dict(loaded.outputs) != {'first': 1, 'second': 2} or loaded.future().result() != loaded.outputs:
+            bad.append(f'restored process emitting again: state {loaded.state.name}, outputs {dict(loaded.outputs)}'
+                       + (f', exception {loaded.exception()!r}' if loaded.state.name == 'EXCEPTED' else ''))
         return '; '.join(bad[:4]) or None
 
     return _run(main())
@@ -1834,6 +1988,29 @@ async def _drive_history(Ctl, point, requests, errs):
     stays paused, resume it if it waits, and report everything observable"""
     proc = Ctl()
     obs = {'raised': [], 'returns': []}
+    if point == 'listener':
+        # the requests are issued re-entrantly, from a listener called while the process ENTERS the waiting state
+        import plumpy
+
+        class L(plumpy.ProcessListener):
+            def on_process_waiting(self, process):
+                if obs.get('fired'):
+                    return
+                obs['fired'] = True
+                for r in requests:
+                    try:
+                        if r in ('pause', 'pause0'):
+                            obs['returns'].append(('pause', process.pause('hold') if r == 'pause' else process.pause()))
+                        elif r == 'play':
+                            obs['returns'].append(('play', process.play()))
+                        elif r == 'kill':
+                            obs['returns'].append(('kill', process.kill('enough')))
+                        elif r == 'resume':
+                            obs['returns'].append(('resume', process.resume('v')))
+                    except Exception as e:  # noqa
+                        obs['raised_in_listener'] = obs.get('raised_in_listener', []) + [(r, type(e).__name__)]
+        obs['keep'] = L()
+        proc.add_process_listener(obs['keep'])
     if point == 'paused':
         await proc.step()         # CREATED -> RUNNING
         proc.pause('first')       # paused at the step boundary before the first step function: the task below waits for play()
@@ -1849,7 +2026,11 @@ async def _drive_history(Ctl, point, requests, errs):
         await _settle(5)
         proc.gate.set_result(None)
         await _settle(10)
-    for r in requests:
+    elif point == 'listener':
+        await _settle(5)
+        proc.gate.set_result(None)
+        await _settle(10)
+    for r in (() if point == 'listener' else requests):
         try:
             if r == 'pause':
                 obs['returns'].append(('pause', proc.pause('hold')))
@@ -1869,6 +2050,9 @@ async def _drive_history(Ctl, point, requests, errs):
     if task is None:
         task = asyncio.ensure_future(proc.step_until_terminated())
     await _settle(10)
+    if point == 'running' and proc.gate is not None and not proc.gate.done():
+        proc.gate.set_result(None)      # a request made inside the running step takes effect when that step ends
+        await _settle(20)
     obs['paused_midway'] = proc.paused
     obs['trace_while_paused'] = list(proc.trace)
     for _ in range(6):
@@ -1930,10 +2114,10 @@ def control_histories(doc):
         if ref['task'] is not None:
             ref['task'].cancel()
         reqs = ['pause', 'pause0', 'play', 'kill', 'resume']
-        for point in ('created', 'paused', 'running', 'waiting'):
+        for point in ('created', 'paused', 'running', 'waiting', 'listener'):
             for n in ((1, 2, 3, 4) if doc.get('tier') == 'thorough' else (1, 2, 3)):
                 for requests in itertools.product(reqs, repeat=n):
-                    if 'resume' in requests and point != 'waiting':
+                    if 'resume' in requests and point not in ('waiting', 'listener'):
                         continue
                     errs = []
                     asyncio.get_event_loop().set_exception_handler(lambda l, c: errs.append(repr(c.get('exception') or c.get('message'))))
@@ -1956,6 +2140,9 @@ def control_histories(doc):
                         if not killed_asked and proc.state.name == 'FINISHED' and proc.statuses != REF_STATUSES:
                             probs.append(('C05', 'status', f'status at the entry of each step {proc.statuses}; undisturbed run: {REF_STATUSES}'))
                         pp = [r for r in requests if r in ('pause', 'pause0', 'play')]
+                        if pp and pp[-1] != 'play' and not killed_asked and 'resume' not in requests and not obs['raised']:
+                            if not obs['paused_midway']:
+                                probs.append(('C05', 'pause-lost', 'pause() was the last pause/play request, yet the process is not paused at the next step boundary'))
                         if pp and pp[-1] == 'play' and obs['paused_midway'] and 'kill' not in requests:
                             probs.append(('C05', 'pause-after-play', 'play() was the last pause/play request, yet the process paused afterwards'))
                     # ---- C06
@@ -2359,6 +2546,8 @@ def input_validation(doc):
         {'extra': 1}, {'lazy': {'must': 1}}, {'lazy': {}}, {'lazy': {'must': 1, 'x': 2}}, {'lazy': {'x': 2}}, {'lazy': {'must': 'one'}},
         {'dyn': {'p': 1}}, {'dyn': {'p': 'one'}}, {'dyn': {'sub': {'q': 2}}}, {'dyn': {'sub': {'q': 'two'}}}, {'dyn': {'sub': {'deep': {'r': 'x'}}}},
         {'dyn': {}}, {'req': ()}, {'opt': ()}, {'ns': {'a': ()}},
+        {'dyn': {'p': None}}, {'dyn': {'p': ''}}, {'dyn': {'p': 0.0}}, {'dyn': {'p': []}}, {'dyn': {'sub': {'q': None}}},
+        {'dyn': {'p': 0}}, {'req': 0}, {'req': 0.0}, {'opt': ''}, {'ns': {'a': 0}}, {'ns': {'a': None}},
     ]
     drops = [(), ('req',), ('ns',)]
 
@@ -2390,6 +2579,11 @@ def input_validation(doc):
                 failures.append((key + '|completed', f'inputs {given}: process.inputs {plain(proc.inputs)}, expected {want}'))
             if plain(proc.raw_inputs) != given:
                 failures.append((key + '|raw', f'inputs {given}: raw_inputs {plain(proc.raw_inputs)}'))
+            # what the caller does to ITS dictionary afterwards must not show in the process
+            inp['__later__'] = 1          # (top level only: nested dictionaries of the raw inputs are shared with the caller by design)
+            if plain(proc.raw_inputs) != given or plain(proc.inputs) != want:
+                failures.append((key + '|aliased', f'inputs {given}: after the caller edited its own dictionary the process reports raw_inputs '
+                                                   f'{plain(proc.raw_inputs)} / inputs {plain(proc.inputs)}'))
             for path in ([], ['ns'], ['lazy'], ['dyn']):
                 cur = proc.inputs
                 try:
